@@ -201,6 +201,57 @@ def lck3_snapshot_atomic(ctx):
     ctx.require(n >= 3, 'LCK-3: fewer than 3 guarded reads in Table::snapshot')
 
 
+
+MAP_MUT = ('std::collections::HashMap::insert', 'std::collections::HashMap::remove',
+           'std::collections::HashMap::retain', 'std::collections::HashMap::clear')
+
+
+def partition_map_mutations(ctx, F, _depth=0, _seen=None):
+    """Mutations of a `HashMap<_, Arc<Partition>>` that F performs synchronously: in its own body, in
+    closures it runs, and in uniquely resolved crate helpers (depth <= 3).
+    Returns [(blk in F, term in F, method, write_acqs, must_ids)] where write_acqs is the set of
+    acquisition sites of the partitions write lock under which the mutation happens - sites of F for
+    mutations under F's own guard (also when the guard is handed to the helper), ('helper', name,
+    site) for a helper that takes the lock itself - and must_ids the lock ids F must hold at blk."""
+    P = ctx.P
+    lm = lockmodel(ctx)
+    _seen = _seen or set()
+    out = []
+
+    def is_part_map(t):
+        return 'mem_store::partition::Partition>' in (t.func or '') and norm_callee(t.func) in MAP_MUT
+    for blk, t in F.calls():
+        if blk.cleanup or not t.func:
+            continue
+        must = lm.must_at(F, blk.id, None)
+        w = {f[2] for f in must if f[0] == PARTS and f[3] == 'x'}
+        if is_part_map(t):
+            out.append((blk, t, norm_callee(t.func).split('::')[-1], set(w), ids(must)))
+            continue
+        is_async = strip_generic_args(t.func).startswith(P.ASYNC_SPAWNERS) if not t.func.startswith('<') else False
+        if is_async:
+            continue
+        for cb in P.closures_in_text(t.func):
+            for (cb_blk, ct) in cb.calls():
+                if not cb_blk.cleanup and is_part_map(ct):
+                    out.append((blk, ct, norm_callee(ct.func).split('::')[-1], set(w), ids(must)))
+        if _depth >= 3:
+            continue
+        cs = [c for c in P.resolve(t.func, F.crate) if c.crate == F.crate and c.kind == 'fn']
+        if len(cs) != 1 or cs[0].name == F.name or cs[0].name in _seen:
+            continue
+        G = cs[0]
+        if G._lines is not None and not any('partition::Partition>' in l for l in G._lines):
+            continue
+        for (_gb, gt, m, gw, _gm) in partition_map_mutations(ctx, G, _depth + 1, _seen | {F.name}):
+            if gw:
+                acq = {('helper', G.name, a) for a in gw}
+            else:
+                acq = set(w)      # the helper mutates a map it was handed: under the caller's guard
+            out.append((blk, gt, m, acq, ids(must) | ({PARTS} if gw else set())))
+    return out
+
+
 def lck4_batch_no_gap(ctx):
     ctx.rule('LCK-4', 'Table::batch keeps the frozen-buffer lock from taking the rows until the '
                       'new partition is registered', floor=2)
@@ -209,16 +260,20 @@ def lck4_batch_no_gap(ctx):
     F = P.one('Table::batch')
     a = lm.analyse(F)
     takes = calls_matching(F, lambda n: n in ('std::mem::take', 'std::mem::replace', 'std::mem::swap'))
-    inserts = calls_matching(F, lambda n: n == 'std::collections::HashMap::insert')
+    inserts = [(b, t, must_ids) for (b, t, m, _w, must_ids) in partition_map_mutations(ctx, F) if m == 'insert']
     ctx.require(takes and inserts, 'LCK-4: Table::batch has no mem::take / HashMap::insert')
     acqs = set()
-    for role, lst in (('take-frozen-rows', takes), ('register-partition', inserts)):
-        for (b, t) in lst:
-            must = lm.must_at(F, b.id, None)
-            acqs |= acq_sites(must, FROZEN)
-            need = {FROZEN} if role == 'take-frozen-rows' else {FROZEN, PARTS}
-            ctx.check('LCK-4', 'Table::batch|%s' % role, need <= ids(must),
-                      '%s with %s held (held: %s)' % (role, sorted(need), sorted(ids(must))), where(t))
+    for (b, t) in takes:
+        must = lm.must_at(F, b.id, None)
+        acqs |= acq_sites(must, FROZEN)
+        ctx.check('LCK-4', 'Table::batch|take-frozen-rows', {FROZEN} <= ids(must),
+                  'take-frozen-rows with %s held (held: %s)' % ([FROZEN], sorted(ids(must))), where(t))
+    for (b, t, must_ids) in inserts:
+        must = lm.must_at(F, b.id, None)
+        acqs |= acq_sites(must, FROZEN)
+        need = {FROZEN, PARTS}
+        ctx.check('LCK-4', 'Table::batch|register-partition', need <= set(must_ids),
+                  'register-partition with %s held (held: %s)' % (sorted(need), sorted(must_ids)), where(t))
     ctx.check('LCK-4', 'Table::batch|one-critical-section', len(acqs) == 1,
               'rows are taken and the partition registered under one acquisition of the '
               'frozen-buffer lock', where(F.blocks[0].term))
@@ -230,33 +285,19 @@ def lck5_compact_swap(ctx):
     P = ctx.P
     lm = lockmodel(ctx)
     F = P.one('Table::compact')
-    muts = calls_matching(F, lambda n: n in ('std::collections::HashMap::insert',
-                                             'std::collections::HashMap::remove',
-                                             'std::collections::HashMap::retain',
-                                             'std::collections::HashMap::clear'))
-    # mutations inside closures that F runs synchronously (`iter().for_each(|id| map.remove(id))`)
-    # happen at the call that receives the closure
-    MUT = ('std::collections::HashMap::insert', 'std::collections::HashMap::remove',
-           'std::collections::HashMap::retain', 'std::collections::HashMap::clear')
-    for blk, t in F.calls():
-        if blk.cleanup or not t.func:
-            continue
-        is_async = strip_generic_args(t.func).startswith(P.ASYNC_SPAWNERS) if not t.func.startswith('<') else False
-        if is_async:
-            continue
-        for cb in P.closures_in_text(t.func):
-            for (cb_blk, ct) in calls_matching(cb, lambda n: n in MUT):
-                muts.append((blk, ct))
-    ctx.require(len(muts) >= 2, 'LCK-5: Table::compact does not remove+insert')
+    muts = partition_map_mutations(ctx, F)
+    kinds = {m for (_b, _t, m, _w, _i) in muts}
+    ctx.require(len(muts) >= 2 and 'insert' in kinds and (kinds & {'remove', 'retain', 'clear'}),
+                'LCK-5: Table::compact does not remove+insert')
     acqs = set()
-    for (b, t) in muts:
-        must = lm.must_at(F, b.id, None)
-        w = {f for f in must if f[0] == PARTS and f[3] == 'x'}
-        acqs |= {f[2] for f in w}
-        ctx.check('LCK-5', 'Table::compact|%s-under-write-lock' % norm_callee(t.func).split('::')[-1],
+    for (b, t, m, w, _i) in muts:
+        acqs |= set(w)
+        ctx.check('LCK-5', 'Table::compact|%s-under-write-lock' % m,
                   bool(w), 'partition map mutation under the write lock', where(t))
     ctx.check('LCK-5', 'Table::compact|single-swap', len(acqs) == 1,
-              'removals and insertion share one write-lock acquisition (sites %s)' % sorted(acqs),
+              'removals and insertion share one write-lock acquisition (sites %s)' % sorted(map(str, acqs)) +
+              ('' if len(acqs) == 1 else ': between two acquisitions a snapshot sees the merged partition '
+               'together with the partitions it replaces (rows twice) or neither'),
               where(F.blocks[0].term))
 
 
